@@ -16,7 +16,7 @@
 EXTENDS VMeasure, Json, IOUtils, TLC
 
 Rec == ndJsonDeserialize(IOEnv.VV_TRACE)
-VARIABLES l, key, vols, ngroups, nbad
+VARIABLES l, key, vols, fcs, ngroups, nbad
 
 KeyOf(r) == <<r.G, r.dim, r.per, r.gens>>
 NP == Len(Primes)
@@ -24,6 +24,27 @@ BoxVol6(k) == LET e(i) == IF i <= k[2] THEN k[1][i] ELSE 2 IN 6 * e(1) * e(2) * 
 
 RECURSIVE SumCells(_, _, _, _)
 SumCells(P, vs, pk, i) == IF i > Len(vs) THEN 0 ELSE MAdd(P, vs[i][pk], SumCells(P, vs, pk, i + 1))
+
+\* ---- C03 at design level: faces of positive area are reciprocal.  For a face of cell i towards (j, s) with area vector av
+\* (residues), signed area a and first moments a1 about g_i, cell j has a face towards (i, -s) with area vector -av and the
+\* same centroid:  a1_i - a1_j = 3 a (g_j + s G - g_i).
+FaceSetOf(r) == {[j |-> x.j, s |-> <<x.s[1], x.s[2], x.s[3]>>, av |-> x.av, a |-> x.a, a1 |-> x.a1] : x \in {r.f[m] : m \in 1..Len(r.f)}}
+Vec3(v) == <<v[1], v[2], v[3]>>
+NonZeroFace(f, usable) == \E pk \in usable : Vec3(f.av[pk]) # <<0, 0, 0>>
+MirrorFace(f, f2, i, k, usable) ==
+    /\ f2.j = i /\ f2.s = <<-f.s[1], -f.s[2], -f.s[3]>>
+    /\ \A pk \in usable :
+          LET P == Primes[pk]
+              gi == <<k[4][i][1], k[4][i][2], k[4][i][3]>>
+              gj == <<k[4][f.j][1], k[4][f.j][2], k[4][f.j][3]>>
+              d  == MV(P, VSub(VAdd(gj, VMul(f.s, <<k[1][1], k[1][2], k[1][3]>>)), gi))
+          IN /\ Vec3(f2.av[pk]) = MVSub(P, MZero3, Vec3(f.av[pk]))
+             /\ f2.a[pk] = f.a[pk]
+             /\ MVSub(P, Vec3(f.a1[pk]), Vec3(f2.a1[pk])) = MVScale(P, MMul(P, 3, f.a[pk]), d)
+RecipFails(k, vs, fs) ==
+    LET usable == {pk \in 1..NP : \A i \in 1..Len(vs) : vs[i] # <<>> /\ vs[i] # <<-2>> /\ vs[i][pk] >= 0}
+    IN IF \E i \in 1..Len(fs) : \E f \in fs[i] : NonZeroFace(f, usable) /\ ~\E f2 \in fs[f.j] : MirrorFace(f, f2, i, k, usable)
+       THEN {"a face of positive area has no mirror face (same area vector, same centroid) in the neighbouring cell"} ELSE {}
 
 \* vols: cell (1-based) -> residues, <<>> while no line of that cell has been seen; "clash" when two lines disagree
 GroupFails(k, vs) ==
@@ -35,31 +56,36 @@ GroupFails(k, vs) ==
         THEN {"the exact cell volumes do not sum to the measure of the box"} ELSE {})
 PrimesUsed(vs) == Cardinality({pk \in 1..NP : \A i \in 1..Len(vs) : vs[i] # <<>> /\ vs[i] # <<-2>> /\ vs[i][pk] >= 0})
 
-Close(k, vs) == PrintT(<<"VERDICT", ToJson([line |-> l, G |-> k[1], dim |-> k[2], per |-> k[3], n |-> Len(vs),
-                                           primes |-> PrimesUsed(vs), failed |-> GroupFails(k, vs)])>>)
+AllFails(k, vs, fs) == GroupFails(k, vs) \cup (IF GroupFails(k, vs) = {} THEN RecipFails(k, vs, fs) ELSE {})
+Close(k, vs, fs) == PrintT(<<"VERDICT", ToJson([line |-> l, G |-> k[1], dim |-> k[2], per |-> k[3], n |-> Len(vs),
+                                               primes |-> PrimesUsed(vs), nfaces |-> Cardinality(UNION {fs[i] : i \in 1..Len(fs)}),
+                                               failed |-> AllFails(k, vs, fs)])>>)
 
 Merge(old, r) == IF old = <<>> THEN r ELSE IF old = r THEN old ELSE <<-2>>
 Fresh(r) == [i \in 1..Len(r.gens) |-> IF i = r.cell THEN r.r ELSE <<>>]
+FreshF(r) == [i \in 1..Len(r.gens) |-> IF i = r.cell THEN FaceSetOf(r) ELSE {}]
 
-TInit == l = 1 /\ key = <<>> /\ vols = <<>> /\ ngroups = 0 /\ nbad = 0
+TInit == l = 1 /\ key = <<>> /\ vols = <<>> /\ fcs = <<>> /\ ngroups = 0 /\ nbad = 0
 TStep ==
     \/ /\ l <= Len(Rec)
        /\ LET r == Rec[l]  k == KeyOf(r)
           IN IF k = key
              THEN /\ vols' = [vols EXCEPT ![r.cell] = Merge(@, r.r)]
+                  /\ fcs' = [fcs EXCEPT ![r.cell] = IF @ = {} THEN FaceSetOf(r) ELSE @]      \* the faces of the first line of a cell
                   /\ UNCHANGED <<key, ngroups, nbad>>
-             ELSE /\ (key # <<>>) => Close(key, vols)
-                  /\ nbad' = nbad + (IF key # <<>> /\ GroupFails(key, vols) # {} THEN 1 ELSE 0)
+             ELSE /\ (key # <<>>) => Close(key, vols, fcs)
+                  /\ nbad' = nbad + (IF key # <<>> /\ AllFails(key, vols, fcs) # {} THEN 1 ELSE 0)
                   /\ ngroups' = ngroups + 1
                   /\ key' = k
                   /\ vols' = Fresh(r)
+                  /\ fcs' = FreshF(r)
        /\ l' = l + 1
     \/ /\ l = Len(Rec) + 1                  \* close the last group
-       /\ (key # <<>>) => Close(key, vols)
-       /\ nbad' = nbad + (IF key # <<>> /\ GroupFails(key, vols) # {} THEN 1 ELSE 0)
+       /\ (key # <<>>) => Close(key, vols, fcs)
+       /\ nbad' = nbad + (IF key # <<>> /\ AllFails(key, vols, fcs) # {} THEN 1 ELSE 0)
        /\ l' = l + 1
-       /\ UNCHANGED <<key, vols, ngroups>>
-TSpec == TInit /\ [][TStep]_<<l, key, vols, ngroups, nbad>>
+       /\ UNCHANGED <<key, vols, fcs, ngroups>>
+TSpec == TInit /\ [][TStep]_<<l, key, vols, fcs, ngroups, nbad>>
 TraceAccepted == TLCGet("stats").diameter - 2 = Len(Rec)
 Consumed == l <= Len(Rec) + 2
 =============================================================================
